@@ -127,6 +127,7 @@ inductive Rule
   | tupleForm | tupleDerefDims | tupleDerefType | tupleIndex | tupleIndexProper
   | arrayShape | rangeFrom | rangeTo | sliceDims | pipeNotFunc
   | funcNoName | emptyMainUnit
+  | guardBinds
   | returnType
   | matchNotEnum | matchExprNotEnum | matchGuardEnum | matchGuardItem | matchGuardNotEnum
   | matchGuardDiffers | matchMissing
@@ -184,6 +185,10 @@ inductive Expr
   | pipe (ln : Ln) (l : Expr) (f : Expr) (args : ExprList)
   /-- `if let (En::it = e) t else f` (item guard; `gln` is the guard's line) -/
   | ifLet (ln gln : Ln) (en it : String) (e t f : Expr)
+  /-- `if let (En::it(x, y) = e) t else f` (record guard: the binds are visible in `t`) -/
+  | ifLetRec (ln gln : Ln) (en it : String) (binds : List (Ln × String)) (e t f : Expr)
+  /-- `En::it(args)`: an enumerator that is a record, constructed (`e` is the enum's name) -/
+  | ctor (ln : Ln) (e : Expr) (it : String) (args : ExprList)
 inductive ExprList
   | nil
   | cons (e : Expr) (rest : ExprList)
@@ -197,6 +202,8 @@ inductive SeqList
   | cons (i : SeqItem) (rest : SeqList)
 inductive Guard
   | item (ln : Ln) (en : String) (it : String) (e : Expr)
+  /-- `En::it(x, y) -> e`: a record guard, its binds visible in the arm -/
+  | recd (ln : Ln) (en : String) (it : String) (binds : List (Ln × String)) (e : Expr)
   | else_ (ln : Ln) (e : Expr)
 inductive GuardList
   | nil
@@ -232,7 +239,7 @@ def Expr.ln : Expr → Ln
   | .ass l _ _ | .while_ l _ _ | .forIn l _ _ _ | .call l _ _ | .seq l _ | .attr l _ _
   | .match_ l _ _ | .array l _ _ _ | .deref l _ _ | .listcomp l _ _ _ _ => l
   | .tuple l _ _ | .proj l _ _ _ | .range l _ | .slice l _ _ | .pipe l _ _ _ => l
-  | .ifLet l _ _ _ _ _ _ => l
+  | .ifLet l _ _ _ _ _ _ | .ifLetRec l _ _ _ _ _ _ _ | .ctor l _ _ _ => l
   | .funcLit _ => 0
   | .sub _ => 0
 
@@ -880,18 +887,22 @@ def guardsSameEnum (en : String) : GuardList → Except Diag Unit
   | .nil => .ok ()
   | .cons (.item ln en' _ _) rest =>
     if en' == en then guardsSameEnum en rest else .error ⟨ln, .matchGuardDiffers⟩
+  | .cons (.recd ln en' _ _ _) rest =>
+    if en' == en then guardsSameEnum en rest else .error ⟨ln, .matchGuardDiffers⟩
   | .cons (.else_ _ _) rest => guardsSameEnum en rest
 
 /-- `expr_match_gaurd_list_last_cnt > 0` -/
 def hasElse : GuardList → Bool
   | .nil => false
   | .cons (.item _ _ _ _) rest => hasElse rest
+  | .cons (.recd _ _ _ _ _) rest => hasElse rest
   | .cons (.else_ _ _) _ => true
 
 /-- the enumerator `it` is marked by `expr_match_guard_list_mark_items` -/
 def coversItem (it : String) : GuardList → Bool
   | .nil => false
   | .cons (.item _ _ it' _) rest => it' == it || coversItem it rest
+  | .cons (.recd _ _ it' _ _) rest => it' == it || coversItem it rest
   | .cons (.else_ _ _) rest => coversItem it rest
 
 /-- `expr_match_guard_list_right_cmp`: the first arm against each later one -/
@@ -925,6 +936,7 @@ def unmarkEnum (m : Marks) (en : String) : Marks := m.filter (fun p => p.1 != en
 def markGuards (en : String) : GuardList → Marks → Marks
   | .nil, m => m
   | .cons (.item _ _ it _) rest, m => markGuards en rest ((en, it) :: m)
+  | .cons (.recd _ _ it _ _) rest, m => markGuards en rest ((en, it) :: m)
   | .cons (.else_ _ _) rest, m => markGuards en rest m
 
 /-- `expr_match_guard_are_all_mark_items` -/
@@ -942,6 +954,29 @@ def exhaustiveM (Γ : Env) (en : String) (gs : GuardList) (m : Marks) : Bool × 
 def runMatches (Γ : Env) : List (String × GuardList) → Marks → Marks
   | [], m => m
   | (en, gs) :: rest, m => runMatches Γ rest (exhaustiveM Γ en gs m).2
+
+/-- the enumerator field table: the fields of the record enumerator `en::it` are kept in
+`Env.records` under the key `en::it` (no identifier contains `::`); `none` = a plain enumerator -/
+def Env.enumRecFields (Γ : Env) (en it : String) : Option (List Field) :=
+  listFind Γ.records (en ++ "::" ++ it)
+
+/-- `expr_match_guard_record_check_type_n`: as many binds as the enumerator has fields (52cb4aa:
+diagnosed without walking the missing list) -/
+def guardBindsOk (Γ : Env) (ln : Ln) (en it : String) (binds : List (Ln × String)) : Except Diag Unit :=
+  match Γ.enumRecFields en it with
+  | none => if binds.isEmpty then .ok () else .error ⟨ln, .guardBinds⟩
+  | some fs => if fs.length == binds.length then .ok () else .error ⟨ln, .guardBinds⟩
+
+/-- `symtab_add_matchbind_from_matchbind_list`: each bind takes type and constness of its field -/
+def addBinds (Γ : Env) : List (Ln × String) → List Field → Except Diag Env
+  | (ln, x) :: bs, f :: fs => do
+    let Γ' ← Γ.add ln x (.param f.cst f.ty)
+    addBinds Γ' bs fs
+  | _, _ => .ok Γ
+
+/-- the table of the arm of a record guard: a new block with the binds (none: the same table) -/
+def bindsEnv (Γ : Env) (en it : String) (binds : List (Ln × String)) : Except Diag Env :=
+  if binds.isEmpty then .ok Γ else addBinds Γ.push binds ((Γ.enumRecFields en it).getD [])
 
 /-- `expr_match_guard_item_check_type`: the guard `En::it` resolves (match guards, if-let) -/
 def guardItemPre (Γ : Env) (ln : Ln) (en it : String) : Except Diag Unit :=
@@ -1166,6 +1201,35 @@ def tc (Γ : Env) : Expr → Except Diag Comb
         | .error r => .error ⟨ln, r⟩
       else .error ⟨ln, .matchGuardDiffers⟩
     | _ => .error ⟨e.ln, .matchNotEnum⟩
+  | .ifLetRec ln gln en it binds e t f => do
+    let ce ← tc Γ e
+    match ce.ct with
+    | .val (.enum en') =>
+      guardItemPre Γ gln en it
+      guardBindsOk Γ gln en it binds
+      let Γb ← bindsEnv Γ en it binds
+      let ct ← tc Γb t
+      let cf ← tc Γ f
+      if en' == en then
+        match combCmp ct.ct cf.ct with
+        | .ok t' => pure ⟨t', .temp⟩
+        | .error r => .error ⟨ln, r⟩
+      else .error ⟨ln, .matchGuardDiffers⟩
+    | _ => .error ⟨e.ln, .matchNotEnum⟩
+  | .ctor ln e it args => do
+    -- `expr_call_check_type`, COMB_TYPE_ENUMTYPE: the callee `En::it`, then the arguments
+    let ce ← tc Γ e
+    match ce.ct with
+    | .enumId s =>
+      if Γ.hasItem s it then do
+        let cs ← tcArgs Γ args
+        match Γ.enumRecFields s it with
+        | some fs =>
+          (paramExprListCmp false (fs.map fun f => (f.cst, f.ty)) cs).toExcept ⟨ln, .enumCreate⟩
+          pure ⟨.val (.enum s), .temp⟩
+        | none => .error ⟨ln, .enumCreate⟩
+      else .error ⟨ln, .undefEnumItem⟩
+    | _ => .error ⟨ln, .enumOnNonEnum⟩
   | .listcomp ln e qs rc rty => do
     let Γq ← tcQuals Γ.push qs
     let ce ← tc Γq e
@@ -1258,6 +1322,13 @@ def tcGuards (Γ : Env) : GuardList → Except Diag (List Comb)
         pure (c :: cs)
       else .error ⟨ln, .matchGuardItem⟩
     | some _ => .error ⟨ln, .matchGuardNotEnum⟩
+  | .cons (.recd ln en it binds e) rest => do
+    guardItemPre Γ ln en it
+    guardBindsOk Γ ln en it binds
+    let Γb ← bindsEnv Γ en it binds
+    let c ← tc Γb e
+    let cs ← tcGuards Γ rest
+    pure (c :: cs)
   | .cons (.else_ _ e) rest => do
     let c ← tc Γ e
     let cs ← tcGuards Γ rest
@@ -1281,6 +1352,8 @@ end
 
 inductive Decl
   | enum (ln : Ln) (name : String) (items : List (Ln × String))
+  /-- the enumerator `it` of the enum `en` (declared by the `enum` entry before) is a record -/
+  | enumRec (ln : Ln) (en it : String) (fields : List Param)
   | record (ln : Ln) (name : String) (fields : List Param)
 
 structure Prog where
@@ -1317,6 +1390,7 @@ def addDecls (Γ : Env) : List Decl → Except Diag Env
     | none =>
       let Γ' ← Γ.add ln name .enum
       addDecls Γ' rest
+  | .enumRec _ _ _ _ :: rest => addDecls Γ rest
   | .record ln name _ :: rest =>
     match Γ.lookup name with
     | some _ => .error ⟨ln, .redefined⟩
@@ -1339,6 +1413,11 @@ def resolveFields (Γ : Env) : List Param → Except Diag (List Field)
 def checkDecls (Γ : Env) : List Decl → Except Diag (List (String × List Field))
   | [] => .ok []
   | .enum _ _ _ :: rest => checkDecls Γ rest
+  | .enumRec _ en it fields :: rest => do
+    let fs ← resolveFields Γ fields
+    dupField fields []
+    let r ← checkDecls Γ rest
+    pure ((en ++ "::" ++ it, fs) :: r)
   | .record _ name fields :: rest => do
     let fs ← resolveFields Γ fields
     dupField fields []
@@ -1349,6 +1428,7 @@ def enumsOf : List Decl → List (String × List String)
   | [] => []
   | .enum _ name items :: rest => (name, items.map (·.2)) :: enumsOf rest
   | .record _ _ _ :: rest => enumsOf rest
+  | .enumRec _ _ _ _ :: rest => enumsOf rest
 
 /-- table in which the module's functions are declared (after the declarations) -/
 def globalEnv (ds : List Decl) : Except Diag Env := do
